@@ -19,6 +19,7 @@ def currentCfg : Cfg := {
   extInputPy := true,
   extKeepAll := true,
   extSchemaDres := true,
-  extInputFieldExtended := true
+  extInputFieldExtended := true,
+  cloneRegsDeep := true
 }
 end PyGql.Generated.HeapCfg
